@@ -102,6 +102,8 @@ def stats_of(events):
             cur["Q"] = sum(x[1] for x in e["held"])
         elif e["e"] == "OC":
             cur["OC"] = True
+        elif e["e"] == "QA":
+            cur["QA"] = e["held"]
     return traces
 
 
@@ -181,7 +183,7 @@ def v2_property(pid, tier, cfgs, cont, nontrivial, rule, level="model_checking",
 
 
 def summarize(pid, tr):
-    last = [e for e in tr if e["e"] in ("Q", "Deadline", "Leak", "NoErr", "SentAfterBad", "EV")]
+    last = [e for e in tr if e["e"] in ("Q", "QA", "A", "Starved", "Deadline", "Leak", "NoErr", "SentAfterBad", "EV")]
     return "; ".join("%s %s" % (e["e"], e.get("held") or e.get("note") or "") for e in last[-3:]) + " (%d events)" % len(tr)
 
 
@@ -218,6 +220,46 @@ def check_C07(tier):
                             "releases and drains; verdict by Mon_Prio: Output()/Err() close only after every input is closed and emptied and "
                             "every delivered item released, they do close within the virtual deadline, Err() yields no non-nil value. "
                             "non-trivial = trace that delivered at least one item before closing; distinct by observed event sequence")
+
+
+def liveness_C06(v, sc, binary):
+    """U1 liveness: under fairness of the scheduler and of the environment (handlers release, producers write and close)
+    every written item is eventually received and the discipline terminates; vacuity twin without environment fairness"""
+    cfgs = [mk("p2live", [2, 1], 3, "rate", 2, 2), mk("p2ulive", [2, 1], 3, "rate", 1, 1, unbuf=(1,)), mk("p2skewlive", [10, 1], 11, "rate", 1, 1)]
+    if v.tier == "thorough":
+        cfgs += [mk("p3flive", [3, 2, 1], 4, "fair", 1, 1), mk("p3rlive", [3, 2, 1], 6, "rate", 1, 1), mk("p2revlive", [2, 1], 3, "rev", 2, 2),
+                 mk("p3ulive", [3, 2, 1], 3, "fair", 1, 1, unbuf=(3, 1))]
+    sub = os.path.join(sc, "live")
+    os.makedirs(sub, exist_ok=True)
+    stage_specs(sub)
+    for cfg in cfgs:
+        cfgp, rows = pm.div_table(binary, cfg, sub)
+        name = pm.write_mc(sub, cfg, rows, spec="LiveSpec", properties=["C06_Live", "C07_Live"])
+        r = tlc(sub, name, cfg=name + ".cfg", workers=14, timeout=1500)
+        if not r.ok:
+            raise Inconclusive("liveness of the model fails or TLC failed on %s (a lead to replay, not a verdict)\n%s" % (name, r.out[-3000:]))
+        v.add_tlc(r, name + " liveness C06_Live, C07_Live under SchedFair /\\ EnvFair")
+    cfg = cfgs[0]
+    cfgp, rows = pm.div_table(binary, cfg, sub)
+    name = pm.write_mc(sub, cfg, rows, spec="VacuitySpec", properties=["C07_Live"])
+    r = tlc(sub, name, cfg=name + ".cfg", workers=14, timeout=900)
+    if not r.prop_violated:
+        raise Inconclusive("vacuity guard: liveness holds even when handlers never release")
+    v.cov["liveness_vacuity_guard"] = "violated as expected without environment fairness"
+
+
+def check_C06(tier):
+    cfgs = cfgs_basic(tier) + [mk("p2skew", [10, 1], 11, "rate", 1, 1)]
+    if tier == "quick":
+        cfgs = [cfgs[0], cfgs[2], cfgs[3]]
+    return v2_property("C06", tier, cfgs, "alone", free=True,
+                       nontrivial=lambda t: t.get("QA") is not None,
+                       rule="TLC liveness (every written item eventually received, termination) under fairness, in bounded PrioV2 configs incl. an unbuffered "
+                            "input and skewed priorities; real code: every cover path is replayed gated, then the continuation releases and drains everything "
+                            "('nothing in flight'), gives data to ONE priority only and never releases: Mon_Prio demands that priority reaches H unreleased "
+                            "items (granted all handlers, no release needed), and that nothing written stays undelivered once inputs are closed and "
+                            "everything is released (Starved). non-trivial = trace in which the alone-scenario ran; distinct by events",
+                       extra=liveness_C06, quick_limit=900)
 
 
 def check_C05(tier):
